@@ -130,6 +130,17 @@ def phase_graph_task(src):
                          'detail': f'offending: {bad}', 'meta': {'function': 'pokerkit.state.State (phase steps)'}}], 'contract': None}
 
 
+def shared_c14_task(task):
+    """documented phase order around an all-in: the choice of run-outs is offered once, acted upon once, and dealing resumes where the
+    all-in happened -- the contracts of _begin_showdown / _end_showdown / _end_bet_collection live under C14 and are run here too"""
+    import props.c14 as p14
+    from pyvc.runner import relabel
+    res = p14.vc_task(task)
+    # (exits part-way are proved by C07's own contracts of the same functions, under C07's stronger preconditions)
+    res['results'] = [r for r in res.get('results', []) if r['kind'] != 'safety']
+    return relabel(res, 'C07')
+
+
 def main(argv=None):
     chk = Check('C07', 'proof', argv)
     source(EXTRA)
@@ -143,6 +154,11 @@ def main(argv=None):
             tasks.append({'module': 'props.c07', 'fn': 'vc_task', 'name': f'{name}/n{sh.n}', 'contract': name, 'shape': sh.as_dict(),
                           'timeout_ms': 60000 if chk.tier == 'thorough' else 20000, 'weight': sh.n, 'sample': 1 if name == '_end_dealing' else 0})
     if not only:
+        import props.c14 as p14
+        for name in ('begin_showdown', 'end_showdown', 'end_bet_collection'):
+            for sh in p14.shapes(chk.tier, name):
+                tasks.append({'module': 'props.c07', 'fn': 'shared_c14_task', 'name': f'c14/{name}/n{sh.n}', 'contract': name, 'shape': sh.as_dict(),
+                              'timeout_ms': 300000 if chk.tier == 'thorough' else 30000, 'weight': sh.n})
         tasks.append({'module': 'pyvc.native', 'fn': 'guard_task', 'name': 'native-guard', 'table_module': 'contracts.flow',
                       'table_name': 'GUARD_TABLE', 'prop': 'C07', 'hands': 400 if chk.tier == 'quick' else 4000, 'seed': chk.seed,
                       'budget_s': 30 if chk.tier == 'quick' else 300, 'weight': 100, 'wild_fraction': 0.0})
